@@ -220,7 +220,24 @@ def run(check, repo: Repo) -> None:
                                 and unparse(d.left.value).endswith(".shape") and is_const(d.left.slice, 1) \
                                 and "first" not in unparse(d.left):
                             ok = True
-            check.decide(ok, "C11-R1", f"{q}: every item is compared with the inferred column count (un-weakened)", "",
+            layered = False
+            if not ok:
+                # layered defence: the inference validator only pre-screens; when every caller then installs the same data through the `data` setter (whose
+                # validate_vector_data is held to the un-weakened guard above) on every path to its return, a laxer pre-screen admits nothing
+                callers = [(mn_, f_) for mn_, f_ in methods.items() if any((call_name(c) or "") == q for c in calls_in(f_))]
+                _, dset_ = repo.func(f"{VEC}:Vector.data@setter")
+                strict = any((call_name(c) or "") == "validate_vector_data" for c in calls_in(dset_))
+                layered = bool(callers) and strict
+                for mn_, f_ in callers:
+                    ccfg = CFG(f_)
+                    arg_names = {unparse(c.args[0]) for c in calls_in(f_) if (call_name(c) or "") == q and c.args}
+                    via = [n.id for n in ccfg.nodes if n.kind == "stmt" and isinstance(n.stmt, ast.Assign) and any(isinstance(t, ast.Attribute) and t.attr == "data" for t in n.stmt.targets)
+                           and unparse(n.stmt.value) in arg_names]
+                    starts = [n_ for c in calls_in(f_) if (call_name(c) or "") == q for n_ in ccfg.node_containing(c)]
+                    if not via or not starts or not all(ccfg.all_paths_pass_through(s_, ccfg.exit, via) for s_ in starts):
+                        layered = False
+            check.decide(ok or layered, "C11-R1", f"{q}: every item is compared with the inferred column count (un-weakened)",
+                         "pre-screen weakened, but every caller installs the same data through the fully validating `data` setter on every path" if layered and not ok else "",
                          vmod.line(fn),
                          fail_detail="the per-item `item.shape[1] != inferred_num_fields → raise` test is missing or weakened "
                                      "by a conjunction")
